@@ -2,6 +2,7 @@ package main
 
 import (
 	"fmt"
+	"io"
 	"math"
 	"runtime"
 	"strconv"
@@ -14,6 +15,7 @@ import (
 	"github.com/uber-go/tally/v4/m3"
 	m3thrift "github.com/uber-go/tally/v4/m3/thrift/v2"
 
+	"github.com/uber-go/tally/v4/multi"
 	tstatsd "github.com/uber-go/tally/v4/statsd"
 
 	"verifharness/mon"
@@ -37,7 +39,7 @@ var stackKinds = map[string]map[string]bool{
 	"C05": {"identity": true},
 	"C08": {"burst": true},
 	"C09": {"counter": true, "timer": true, "histogram": true, "shared": true},
-	"C10": {"timer": true},
+	"C10": {"timer": true, "timer-value": true},
 }
 
 // promKinds restricts the comparisons of c17Values (nil = all, C17 itself).
@@ -57,6 +59,7 @@ func runStack(c *mon.Ctx) {
 				promKinds = kinds
 				c17Values(c, r.Fork(2))
 				promKinds = nil
+				stackMultiTags(c, r.Fork(3))
 			}
 		case "C09":
 			stackM3Values(c, r.Fork(1), kinds)
@@ -219,6 +222,22 @@ func stackM3Values(c *mon.Ctx, r *mon.Rand, kinds map[string]bool) {
 	wg.Wait()
 	atomic.StoreInt32(&stop, 1)
 	wgP.Wait()
+	// second life with other bounds: a scope is closed and dropped, the same
+	// prefix and tags are requested again and the histogram of the same name is
+	// created with another specification - the reporter is asked for it again
+	// and must use the new bounds
+	relifeV1, relifeV2 := []float64{10, 20}, []float64{15, 100}
+	c.Guard("panic-scope-m3", func() interface{} { return desc }, func() {
+		s1 := root.Tagged(map[string]string{"w": "relife"})
+		s1.Histogram("rh", tally.ValueBuckets(relifeV1)).RecordValue(5)
+		tally.VerifReportPass(root)
+		s1.(io.Closer).Close()
+		tally.VerifReportPass(root)
+		s2 := root.Tagged(map[string]string{"w": "relife"})
+		s2.Histogram("rh", tally.ValueBuckets(relifeV2)).RecordValue(12)
+		s2.Histogram("rh", tally.ValueBuckets(relifeV2)).RecordValue(50)
+		tally.VerifReportPass(root)
+	})
 	// the burst: fresh counters incremented once, nothing passes them on before
 	// Close does
 	burstScope := root.Tagged(map[string]string{"w": "burst"})
@@ -360,6 +379,11 @@ func stackM3Values(c *mon.Ctx, r *mon.Rand, kinds map[string]bool) {
 				break
 			}
 		}
+	}
+	// first life: 5 in bucket 0 of {10,20}; second life: 12 in bucket 0 and 50 in
+	// bucket 1 of {15,100} (with the first life's bounds 12 would be in bucket 1)
+	if rh := gotH[base+"rh|wrelife"]; rh[0] != 2 || rh[1] != 1 || len(rh) != 2 {
+		bad("histogram", "histogram-bucket-sum", fmt.Sprintf("histogram rh of a scope that was closed, dropped and obtained again with other bounds ({10,20} then {15,100}): samples on the wire per bucket id %v, want map[0:2 1:1]", rh))
 	}
 	for k := 0; k < burst; k++ {
 		id := base + "b" + strconv.Itoa(k) + "|wburst"
@@ -655,4 +679,63 @@ func stackStatsd(c *mon.Ctx, r *mon.Rand, kinds map[string]bool) {
 		}
 	}
 	c.Distinct(mon.Hash64(fmt.Sprint(desc), fmt.Sprint(r.U64())))
+}
+
+// stackMultiTags: a scope over a multi reporter whose children differ in what
+// they say about tagging (a name-only backend next to a tagging one): every
+// child is handed the scope's name and tags; what a child does with tags it
+// cannot use is its own business.
+func stackMultiTags(c *mon.Ctx, r *mon.Rand) {
+	n := r.Range(2, 4)
+	cached := r.Bool()
+	recs := make([]*mon.Recorder, n)
+	var plain []tally.StatsReporter
+	var cach []tally.CachedStatsReporter
+	for i := range recs {
+		caps := mon.Caps(true, r.Bool())
+		if i == 0 {
+			caps = mon.Caps(true, false) // the first child never tags
+		}
+		if cached {
+			cr := mon.NewCachedRec(true)
+			cr.Caps = caps
+			recs[i], cach = cr.Recorder, append(cach, cr)
+		} else {
+			pr := mon.NewPlainRec(true)
+			pr.Caps = caps
+			recs[i], plain = pr.Recorder, append(plain, pr)
+		}
+	}
+	opts := tally.ScopeOptions{OmitCardinalityMetrics: true, Prefix: r.Pick("", "svc")}
+	if cached {
+		opts.CachedReporter = multi.NewMultiCachedReporter(cach...)
+	} else {
+		opts.Reporter = multi.NewMultiReporter(plain...)
+	}
+	root, _ := vNewRoot(opts, 0, uint(r.Range(0, 2)))
+	tags := map[string]string{"k": r.Ident(4), "zone": "z" + r.Ident(2)}
+	desc := map[string]interface{}{"mode": "stack/multi-tags", "children": n, "cached": cached, "tags": tags}
+	c.Eval(1)
+	c.Guard("panic-scope-multi", func() interface{} { return desc }, func() {
+		sc := root.Tagged(mon.CopyTags(tags)).SubScope("sub")
+		sc.Counter("c").Inc(3)
+		sc.Gauge("g").Update(1.5)
+		sc.Timer("t").Record(time.Millisecond)
+		sc.Histogram("h", tally.ValueBuckets{1}).RecordValue(0.5)
+		tally.VerifReportPass(root)
+	})
+	name := mon.RefName(opts.Prefix, ".", "sub", "c")
+	for i, rec := range recs {
+		_, agg, _ := rec.Snapshot()
+		if agg[mon.IdentKey(name, tags)].Sum != 3 {
+			var seen []string
+			for k, a := range agg {
+				if a.N > 0 {
+					seen = append(seen, k)
+				}
+			}
+			c.Violation("stack-multi/wrong-name-or-tags", map[string]interface{}{"why": fmt.Sprintf("child %d of the multi reporter did not receive the counter under name %q and tags %v; it saw %q", i, name, tags, seen), "case": desc})
+		}
+	}
+	c.Event("multi-children-checked", int64(n))
 }
